@@ -429,7 +429,32 @@ func c18Accumulators(c *Ctx, r *Report) {
 			r.fail("C18-R3-accumulator-scope", "fit."+name, c.pos(g.Pos()), "accumulator "+name+" is a package-level variable that is never reset: the accumulated destination continues across files instead of starting at the beginning of each file")
 		}
 	}
-	r.ok("C18-R3-accumulator-scope", "scan", "", "package-level variables scanned for accumulator type")
+	// who assigns an accumulator variable: only the lazy construction inside expandComponents
+	for _, fn := range c.moduleFuncs() {
+		if fnPkgPath(fn) != modPath || fn.Name() == "expandComponents" || fn.Synthetic != "" {
+			continue
+		}
+		for _, b := range fn.Blocks {
+			for _, ins := range b.Instrs {
+				st, ok := ins.(*ssa.Store)
+				if !ok {
+					continue
+				}
+				g, ok := st.Addr.(*ssa.Global)
+				if !ok {
+					continue
+				}
+				et := g.Type().(*types.Pointer).Elem()
+				if p2, ok := et.(*types.Pointer); ok {
+					et = p2.Elem()
+				}
+				if types.Identical(et, accT.Type()) {
+					r.fail("C18-R3-accumulator-scope", fn.Name()+"/assigns-"+g.Name(), c.pos(st.Pos()), "accumulator "+g.Name()+" is reassigned in "+fn.Name()+": whenever that runs in the middle of a file the running sum restarts there instead of at the beginning of the file")
+				}
+			}
+		}
+	}
+	r.ok("C18-R3-accumulator-scope", "scan", "", "package-level variables scanned for accumulator type; accumulators are assigned only by the construction inside expandComponents")
 }
 
 func stmtStr(c *Ctx, s ast.Stmt) string {
